@@ -23,8 +23,12 @@ RULES = {
     'R6': 'signal handler only writes to the pipe; every delivery is cloned with cloned_from; after signal_del no queued clone remains (scans continue past a match, removal-safe) or at most one clone is ever queued',
     'R8': 'handle check values: a check computed from the slot\'s own previous check (generation counter) must never be reset by the invalidation stores; otherwise it comes from random()',
     'R7': 'qb_loop_run re-tests stop_requested after every level run',
+    'R9': 'a run that follows a stop knows about the work already queued: before its first poll the pending-work count the timeout choice depends on is made up from the levels\' todo counters',
+    'R10': 'signal_del purges queued deliveries at every priority (they are queued at the priority the registration had then, which signal_mod can change), or the priority cannot change while deliveries are queued',
+    'R11': 'an entry is findable by descriptor number only while it stands for a registration: a refused add leaves the slot without a number and check (as an emptied slot), and a successful add retires an entry that is being dispatched right now under the same number (the descriptor was closed and its number reused inside its own callback)',
+    'R12': 'every signal number qb_loop_signal_add accepts can get the library\'s handler: the installation loop covers all numbers below NSIG',
 }
-FLOORS = {'R1': 4, 'R2': 5, 'R3': 12, 'R4': 9, 'R5': 3, 'R6': 5, 'R7': 1, 'R8': 2}
+FLOORS = {'R1': 4, 'R2': 5, 'R3': 12, 'R4': 9, 'R5': 3, 'R6': 5, 'R7': 1, 'R8': 2, 'R9': 1, 'R10': 1, 'R11': 2, 'R12': 1}
 
 
 def run(ctx):
@@ -38,6 +42,10 @@ def run(ctx):
     r6(ctx)
     r7(ctx)
     r8(ctx)
+    r9(ctx)
+    r10(ctx)
+    r11(ctx, st)
+    r12(ctx)
 
 
 def r1(ctx):
@@ -250,9 +258,27 @@ def r4(ctx, st):
                 neg_ok = ok
     ctx.check('R4', 'dispatch:negative-result-tombstones', neg_ok, f, 'a negative callback result tombstones the entry', 'a negative callback result does not remove the entry')
     em = prog.callers_of('_poll_entry_empty_')
-    ok = bool(em) and all(g.name == 'qb_poll_fds_usage_check_' for (g, _e) in em)
-    ctx.check('R4', 'recycle-site', ok, em[0][1] if em else None, 'tombstones are recycled only in qb_poll_fds_usage_check_', 'tombstones are recycled elsewhere')
+    # besides the recycler, the slot-taking function may reset the slot it has just taken when the driver refuses the descriptor
+    # (that slot never stood for a registration): the reset is then only reachable through the failure edge of the driver add
+    def rollback(g, ev):
+        if g.name != '_poll_add_':
+            return False
+        adds = [x for x in g.events('CALL') if x.callee.endswith('::add')]
+        if len(adds) != 1:
+            return False
+        rv = [estr(s_.lhs) for s_ in g.events('STORE') if s_.rhs is not None and any(n.get('id') == adds[0].e.get('id') for n in walk(s_.rhs))]
+        if not rv:
+            return False
+
+        def succeeded(a, fb):
+            return a.ls == rv[0] and ((a.op == '!=' and a.rc == 0) or (a.op == '<' and a.rc == 0))
+        return g.ev_dominates(adds[0], ev) and g.uncut_path(ev, succeeded, start=('after', adds[0])) is None
+    ok = bool(em) and all(g.name == 'qb_poll_fds_usage_check_' or rollback(g, ev) for (g, ev) in em)
+    ctx.check('R4', 'recycle-site', ok, em[0][1] if em else None, 'slots are emptied only by the recycler (and when an add is refused, for the slot just taken)', 'tombstones are recycled elsewhere')
     for (g, ev) in em:
+        if rollback(g, ev):
+            continue
+
         def deleted(a, fb):
             return a.op == '==' and a.rc == DELETED and field_is(a.l, 'state', 'qb_poll_entry')
         ctx.check('R4', 'recycle-only-deleted', g.uncut_path(ev, deleted) is None, ev, 'only DELETED entries are recycled', 'a non-DELETED entry can be emptied')
@@ -429,3 +455,142 @@ def r8(ctx):
             else:
                 ctx.check('R8', '%s.check:fresh-value-source' % rec, rnd, ev, 'a new handle check comes from the PRNG',
                           'a new handle check is %s: neither random nor a never-reset generation counter' % estr(ev.rhs))
+
+
+def r9(ctx):
+    prog = ctx.prog
+    f = prog.fn('qb_loop_run')
+    polls = [ev for ev in f.events('CALL') if ev.callee == 'qb_loop_source::poll' and 'fd_source' in estr(ev.e)]
+    if not polls:
+        raise AnalysisBroken('qb_loop_run: descriptor poll not found')
+    # the count the "may block" decision tests: a local compared > 0 on the way to the timeout stores and accumulated from level[].todo
+    accs = [st for st in f.events('STORE') if st.d['op'] == '+=' and st.rhs is not None and last_field(unwrap(st.rhs)) == ('qb_loop_level', 'todo') and unwrap(st.lhs).get('k') == 'var']
+    if not accs:
+        raise AnalysisBroken('qb_loop_run: no accumulation of level todo counters')
+    rem = estr(accs[0].lhs)
+    loops = f.natural_loops()
+    main = [h for h, b in loops.items() if polls[0].blk in b]
+    if not main:
+        raise AnalysisBroken('qb_loop_run: the poll is not in a loop')
+    body = max((loops[h] for h in main), key=len)
+    pre = [st for st in accs if estr(st.lhs) == rem and st.blk not in body]
+    ctx.check('R9', 'rerun-counts-queued-work', bool(pre), pre[0] if pre else polls[0],
+              '%s is made up from the levels\' todo counters before the first poll' % rem,
+              '%s starts at its initial value on every qb_loop_run(): items that were moved to the dispatch lists before a stop are not counted, and with no timer pending '
+              'the re-run blocks in the poll for ever (a job added before the stop never runs)' % rem)
+
+
+def r10(ctx):
+    prog = ctx.prog
+    f = prog.fn('qb_loop_signal_del')
+    purges = [ev for ev in f.events('CALL') if ev.callee in ('qb_loop_level_item_del', 'qb_list_del') and any(
+        n.get('k') == 'var' for n in walk(ev.args[-1] if ev.callee == 'qb_loop_level_item_del' else ev.args[0]))]
+    # which level do the scans index?  the registration's own priority, or a loop variable covering all levels
+    idxs = set()
+    for ev in f.events():
+        for root in (ev.e, ev.rhs, ev.lhs):
+            if root is None:
+                continue
+            for n in walk(root):
+                if n.get('k') == 'idx' and last_field(n['b']) == ('qb_loop', 'level'):
+                    idxs.add(estr(n['i']))
+    if not idxs:
+        raise AnalysisBroken('qb_loop_signal_del: no level is scanned')
+    own = [i for i in idxs if i.endswith('->p')]
+    # a loop variable: assigned a constant and incremented, compared against the highest priority
+    allp = []
+    for i in idxs - set(own):
+        sts = [st for st in f.events('STORE') if estr(st.lhs) == i]
+        if any(st.d['op'] == '=' and cval(unwrap(st.rhs)) == prog.econst('QB_LOOP_LOW') for st in sts) and any(st.d['op'] in ('++',) for st in sts):
+            allp.append(i)
+    mod = prog.fn('qb_loop_signal_mod')
+    mod_changes_p = any(last_field(st.lhs) == ('qb_loop_sig', 'p') for st in mod.events('STORE'))
+    ok = (bool(allp) and not own) or not mod_changes_p
+    ctx.check('R10', 'signal_del-purges-every-priority', ok, f,
+              'queued deliveries are purged from every level' if allp else 'the priority of a registration never changes',
+              'qb_loop_signal_del only scans the level of the registration\'s current priority (%s) but qb_loop_signal_mod can change it: a delivery queued under the old '
+              'priority survives the delete and its callback runs after the delete returned success' % own)
+
+
+def r11(ctx, st):
+    prog = ctx.prog
+    f = prog.fn('_poll_add_')
+    adds = [ev for ev in f.events('CALL') if ev.callee == 'qb_poll_source_driver::add' or ev.callee.endswith('::add')]
+    if len(adds) != 1:
+        raise AnalysisBroken('_poll_add_: driver add calls = %d' % len(adds))
+    add = adds[0]
+    rv = None
+    for s_ in f.events('STORE'):
+        if s_.rhs is not None and any(n.get('id') == add.e.get('id') for n in walk(s_.rhs)):
+            rv = estr(s_.lhs)
+    if rv is None:
+        raise AnalysisBroken('_poll_add_: result of the driver add is not stored')
+    # failure edge: the slot is emptied (as by _poll_entry_empty_: number and check gone), not just marked EMPTY
+    EMPTY = st['QB_POLL_ENTRY_EMPTY']
+    failed = []
+    for b in f.blocks.values():
+        if b.cond is None:
+            continue
+        for (t, lab) in b.succs:
+            if lab in (True, False) and any(a.ls == rv and ((a.op == '!=' and a.rc == 0) or (a.op == '<' and a.rc == 0)) for a in atoms_of(b.cond, lab)):
+                failed.append((b, t))
+    if not failed:
+        raise AnalysisBroken('_poll_add_: no failure edge after the driver add')
+    okf = True
+    for (b, t) in failed:
+        hits_empty, _e, _n = f.search(('edge', b.id, t), goal=lambda ev: ev.kind == 'CALL' and ev.callee == '_poll_entry_empty_')
+        bare, _e2, _n2 = f.search(('edge', b.id, t), goal=lambda ev: ev.kind == 'RETURN', stop=lambda ev: (ev.kind == 'CALL' and ev.callee == '_poll_entry_empty_') or
+                                  (ev.kind == 'STORE' and last_field(ev.lhs) == ('pollfd', 'fd')))
+        okf = okf and bool(hits_empty) and not bare
+    ctx.check('R11', 'refused-add-empties-slot', okf, add,
+              'a refused add resets the slot completely (no descriptor number, no check)',
+              'a refused add only marks the slot EMPTY: it keeps the descriptor number and a non-zero check, so a later poll_del/poll_mod by number matches the dead slot '
+              '(delete returns success and removes nothing; modify re-points the kernel registration at it)')
+    # success edge: an entry being dispatched under the same number is retired
+    JOBLIST = st['QB_POLL_ENTRY_JOBLIST']
+    retire = [ev for ev in f.calls('_poll_entry_mark_deleted_')]
+
+    def same_number_in_dispatch(a, fb):
+        return (a.op == '==' and field_is(a.l, 'state', 'qb_poll_entry') and a.rc == JOBLIST) or \
+               (a.op == '==' and last_field(a.l) == ('pollfd', 'fd') and estr(a.r) == f.params[2]['n']) or \
+               (a.op == '==' and last_field(a.r) == ('pollfd', 'fd') and estr(a.l) == f.params[2]['n'])
+    ok = bool(retire) and all(any(same_number_in_dispatch(a, None) and last_field(a.l) == ('pollfd', 'fd') or last_field(a.r) == ('pollfd', 'fd') for (a, _e) in f.guards(ev)) and
+                              any(field_is(a.l, 'state', 'qb_poll_entry') and a.rc == JOBLIST for (a, _e) in f.guards(ev)) for ev in retire)
+    # alternative shape: poll_mod / poll_del disambiguate themselves (they do not stop at the first entry carrying the number)
+    ctx.check('R11', 'number-reuse-inside-callback', ok, retire[0] if retire else add,
+              'a successful add retires an entry that is being dispatched under the same descriptor number',
+              'an entry whose callback is running stays findable under its descriptor number: if the callback closes the descriptor and registers a new one that got the '
+              'same number, poll_mod/poll_del for the new descriptor are applied to the old entry (the new one is then never dispatched, or stays armed as a ghost)')
+
+
+def r12(ctx):
+    prog = ctx.prog
+    f = prog.fn('_adjust_sigactions_')
+    acts = list(f.calls('sigaction'))
+    if not acts:
+        raise AnalysisBroken('_adjust_sigactions_: no sigaction call')
+    loops = f.natural_loops()
+    hdrs = [h for h, b in loops.items() if acts[0].blk in b]
+    if not hdrs:
+        raise AnalysisBroken('_adjust_sigactions_: sigaction is not in a loop')
+    body = max((loops[h] for h in hdrs), key=len)
+    iv = estr(acts[0].args[0])
+    bound = None
+    for bid in body:
+        b = f.blocks[bid]
+        if b.cond is None:
+            continue
+        for (t, lab) in b.succs:
+            if lab in (True, False) and t in body:
+                for a in atoms_of(b.cond, lab):
+                    if a.ls == iv and a.op in ('<', '<=') and a.rc is not None:
+                        bound = a.rc if a.op == '<' else a.rc + 1
+    # the highest signal number of this platform: the constant evaluator's value of the bound must reach NSIG
+    import signal as _signal
+    nsig = getattr(_signal, 'NSIG', None)      # one more than the highest signal number of this platform
+    if bound is None or nsig is None:
+        raise AnalysisBroken('_adjust_sigactions_: loop bound %s / NSIG %s not determined' % (bound, nsig))
+    ctx.check('R12', 'handler-loop-covers-all-signals', bound >= nsig, acts[0],
+              'the handler installation loop runs over the signal numbers below %d = NSIG' % bound,
+              'the handler installation loop stops at %d but signal numbers go up to %d (NSIG is %d): the highest signal is accepted by qb_loop_signal_add '
+              'and never gets the handler - its delivery kills the process' % (bound, nsig - 1, nsig))
